@@ -44,7 +44,7 @@ ASSUMPTIONS = [
     "dropping a synthetic copy that was never sent is a no-op in the code and is not counted as 'dropped'",
 ]
 MUST_REACH = {"scenarios": 500, "hook_exceptions_raised": 100, "claims_observed": 100, "followups_delivered": 500,
-              "ownership_sequences": 300, "illegal_reuse_rejected": 100, "subscriber_scenarios": 20, "predicate_scenarios": 8, "rlv_scenarios": 6,
+              "ownership_sequences": 300, "illegal_reuse_rejected": 100, "subscriber_scenarios": 20, "predicate_scenarios": 8, "wait_for_scenarios": 4, "rlv_scenarios": 6,
               "packet_hook_scenarios": 6, "object_hook_scenarios": 2}
 
 _ser = UDPMessageSerializer()
@@ -485,6 +485,45 @@ def check_predicate(ctx, level, direction_in, reliable, pred_exc):
         h.close()
 
 
+def check_wait_for_multi(ctx, level, first_in, reliable):
+    """A waiter for either of two message names (MessageHandler.wait_for, taking): the first arrival is the waiter's (a claim),
+    after that it is gone - a later message of the OTHER name belongs to nobody and must be forwarded exactly once."""
+    h = Harness(1)
+    try:
+        target = h.session.message_handler if level == "session" else h.region.message_handler
+        fut = target.wait_for(("ChatFromViewer", "ChatFromSimulator"), take=True)
+        wit = {"hook": f"{level}.message_handler.wait_for(two names)", "behaviour": "wait_for", "first": "in" if first_in else "out",
+               "reliable": reliable}
+        text1, data1 = h.chat(first_in, reliable)
+        exc = h.feed(first_in, data1)
+        ctx.ev()
+        ctx.count("scenarios")
+        ctx.count("wait_for_scenarios")
+        if exc is not None:
+            ctx.violation("exception-escaped-proxy:wait_for", "an exception left handle_proxied_packet", dict(wit, exc=repr(exc)[:300]))
+        if not fut.done():
+            ctx.violation("wait-for-not-resolved", "a waiter was not given the message it waited for", wit)
+        n1 = h.emissions_with_text(text1)
+        if n1 != 0:
+            ctx.violation("taken-message-emitted", "a message taken by a waiter was put on the wire by the proxy", dict(wit, count=n1))
+        ctx.count("claims_observed")
+        # the other name, twice (the waiter must be gone for every name it had subscribed to)
+        for k in range(2):
+            text2, data2 = h.chat(not first_in, reliable)
+            exc = h.feed(not first_in, data2)
+            if exc is not None:
+                ctx.violation("exception-escaped-proxy:wait_for", "an exception left handle_proxied_packet", dict(wit, exc=repr(exc)[:300]))
+            n2 = h.emissions_with_text(text2)
+            if n2 != 1:
+                ctx.violation("unclaimed-message-lost" if n2 == 0 else "emitted-more-than-once",
+                              "a message nobody claimed (its waiter had already been satisfied) was not put on the wire exactly once",
+                              dict(wit, count=n2, nth=k))
+        followup(ctx, h, wit)
+        ctx.nontrivial(("wait_for", level, first_in, reliable))
+    finally:
+        h.close()
+
+
 def check_subscriber(ctx, level, which, behaviour, direction_in, reliable):
     """Session- or region-level message_handler subscribers, named or wildcard."""
     h = Harness(1)
@@ -755,6 +794,10 @@ def run(ctx):
             for rel in (False, True):
                 for pe in (KeyError, ValueError):
                     others.append(("pred", level, d, rel, pe))
+    for level in ("session", "region"):
+        for d in (False, True):
+            for rel in (False, True):
+                others.append(("waitfor", level, d, rel))
     for combo in itertools.product(["none", "true", "raise"], repeat=2):
         for n in (1, 2, 3):
             others.append(("rlv", combo, n))
@@ -769,6 +812,8 @@ def run(ctx):
             check_subscriber(ctx, *o[1:])
         elif o[0] == "pred":
             check_predicate(ctx, *o[1:])
+        elif o[0] == "waitfor":
+            check_wait_for_multi(ctx, *o[1:])
         elif o[0] == "rlv":
             check_rlv(ctx, o[1], o[2])
         else:
